@@ -233,8 +233,35 @@ def ledger_part(ctx):
                 ctx.violation('c07.wildcard_failed', f'nested wildcard on #{tname}: {exc!r}', {'text': text})
 
 
+def failed_execution_part(ctx):
+    """A cursor re-used after a refused or failed execution: whatever rows it still delivers have one value per described
+    column and go under the names of the statement that produced them."""
+    from .. import failpaths
+    rng = ctx.rng('failpaths')
+    for label, first, names, fetched, text, kind, desc, cur, raised, nrows in failpaths.scenarios(rng, ctx.pick(20, 200)):
+        case = {'statement_sequence': label}
+        ctx.count(f'obs.failed_executions.{kind}')
+        ctx.case(('failpath', label), True)
+        if raised is None:
+            ctx.violation('c07.failing_statement_did_not_fail', f'{text}: expected to be refused or to fail (harness expectation)', case)
+            continue
+        rest = cur.fetchall()
+        dnames = [d.name for d in desc] if desc is not None else None
+        if rest and dnames != names:
+            ctx.violation('c07.description_after_failed_execution', f'after {text!r} failed, the cursor still delivers rows of {first!r} but describes them as {dnames} (expected {names})', case)
+            return
+        if any(len(r) != len(desc or ()) for r in rest):
+            ctx.violation('c07.row_shape', f'after {text!r} failed, the cursor delivers rows of {len(rest[0])} values for {len(desc or ())} described columns', case)
+            return
+        if not rest and desc is not None and dnames != names:
+            ctx.violation('c07.description_after_failed_execution', f'after {text!r} failed, the description is {dnames}: neither that of the last successful statement nor empty', case)
+            return
+
+
 def run(ctx):
     engine.bq()
+    if ctx.shard % 2 == 0 or not ctx.quick:
+        failed_execution_part(ctx)
     for n in range(ctx.pick(70, 2500)):
         if ctx.out_of_time():
             break
@@ -256,7 +283,7 @@ def finalize(merged):
     c = merged['counters']
     reasons = []
     for k in ('obs.statements_with_limit', 'obs.names_by_rule.alias', 'obs.names_by_rule.column', 'obs.names_by_rule.text', 'obs.hidden_targets',
-              'obs.parse_back', 'obs.wildcard_statements', 'obs.ledger_statements'):
+              'obs.parse_back', 'obs.wildcard_statements', 'obs.ledger_statements', 'obs.failed_executions.failing', 'obs.failed_executions.rejected'):
         if c.get(k, 0) == 0:
             reasons.append(f'{k} == 0')
     return reasons
